@@ -48,6 +48,13 @@ class DocPart(C9.WireC09):
                 bad.append(("%s/unexpected-throw/%s" % (self.name, w[0]), op[:120], i))
             elif w[0] == "ser" and L.parse_img(o) is None:
                 bad.append(("%s/bad-observation" % self.name, o[:120], i))
+            elif w[0] == "ser":
+                # one object, two writers (+ the header variants): the model reads the byte-vector image; a stream image that differs
+                # from it cannot be the documented layout as well
+                d = L.parse_img(o)
+                for c in d["status"].replace("FAIL:", "").replace(",", " ").split():
+                    if c == "stream-ne-bytes" or c.startswith("header"):
+                        bad.append(("%s/writers-disagree:%s" % (self.name, c), "%s: %s (byte-vector image %s)" % (d["kind"], c, d["hex"][:100]), i))
         return bad
 
 
